@@ -294,6 +294,47 @@ typedef struct { Scalar m_c, m_s; } Jacobi;
     report["UpperHessenbergSchur::init_francis_qr_step"] = R.fired
     out.append(("schur.init_francis_qr_step", types + t + sp.harness("h", alloc + "  Index il = nondet_Index(), iu = nondet_Index(); const Scalar *shift_info = VEC_NEW(3); Index imv = nondet_Index(); Index *im = &imv; Scalar *first_householder_vec = VEC_NEW(3);",
                                                                      "S, il, iu, shift_info, im, first_householder_vec"), "init_francis_qr_step", ["loop_invariant_step", "Eigen index assertion"]))
+    # perform_francis_qr_step: the bulge chase.  The three Householder kernels are replaced by their contracts in the logical
+    # n x n column-major model (their bodies: schur.householder_* groups); block / coefficient selectors keep their Eigen index assertions.
+    f = X.locate(SH, "perform_francis_qr_step", cls="UpperHessenbergSchur")
+    sp = FSpec("perform_francis_qr_step", "void", [("SC *", "S"), ("Index", "il"), ("Index", "im"), ("Index", "iu"), ("const Scalar *", "first_householder_vec"), ("Scalar", "near_0")],
+               pre=inv + [("0 <= il <= im <= iu - 2, iu < n (result of init_francis_qr_step)", "2 <= iu && iu < S->m_n && 0 <= il && il <= im && im <= iu - 2"),
+                          ("three-entry vector", "VEC_SIZE(first_householder_vec) == 3")],
+               post=[], frame=["S->m_T.cell", "S->m_U.cell"], real=SH + ":perform_francis_qr_step")
+    hh = r'''
+/* contracts of the raw-pointer Householder kernels, stated on (matrix, first row, first column): the pointer passed is &M(r0, c0) and the stride is M.rows */
+static void HH_LEFT(Mat *M, Index r0, Index c0, Index ncol, Index stride)
+{ __CPROVER_assert(stride == M->rows && 0 <= r0 && r0 + 3 <= M->rows && 0 <= c0 && 0 <= ncol && c0 + ncol <= M->cols,
+                   "apply_householder_left precondition: rows r0..r0+2 and columns c0..c0+ncol-1 lie inside the matrix, stride = rows"); M->cell = nondet_Scalar(); }
+static void HH_RIGHT(Mat *M, Index r0, Index c0, Index nrow, Index stride)
+{ __CPROVER_assert(stride == M->rows && r0 == 0 && 0 <= nrow && nrow <= M->rows && 0 <= c0 && c0 + 3 <= M->cols,
+                   "apply_householder_right_simd precondition: rows 0..nrow-1 of columns c0..c0+2 lie inside the matrix, stride = rows"); M->cell = nondet_Scalar(); }
+'''
+    rot_rules = [("rot", r"Eigen::JacobiRotation<Scalar> rot;", "Jacobi rot; rot.m_c = nondet_Scalar(); rot.m_s = nondet_Scalar();", {"max": 1}),
+                 ("givens", r"rot\.makeGivens\(T_\(([^;]+?)\), T_\(([^;]+?)\), &beta\);", r"(void)(T_(\1)); (void)(T_(\2)); beta = nondet_Scalar();", {"max": 1}),
+                 ("left", r"m_T\.rightCols\(([^;()]+)\)\.applyOnTheLeft\(([^;,]+), ([^;,]+), rot\.adjoint\(\)\);",
+                  r"NCOLS_CHECK(S->m_T, \1); __CPROVER_assert(0 <= (\2) && (\2) < S->m_T.rows && 0 <= (\3) && (\3) < S->m_T.rows, @Q@Eigen: applyOnTheLeft(p, q) row indices in range@Q@); MAT_TOUCH(S->m_T);", {"max": 1}),
+                 ("right", r"m_T\.topRows\(([^;()]+)\)\.applyOnTheRight\(([^;,]+), ([^;,]+), rot\);",
+                  r"__CPROVER_assert(0 <= (\1) && (\1) <= S->m_T.rows, @Q@Eigen block assertion: topRows(n) within the matrix@Q@); __CPROVER_assert(0 <= (\2) && (\2) < S->m_T.cols && 0 <= (\3) && (\3) < S->m_T.cols, @Q@Eigen: applyOnTheRight(p, q) column indices in range@Q@); MAT_TOUCH(S->m_T);", {"max": 1}),
+                 ("rightU", r"m_U\.applyOnTheRight\(([^;,]+), ([^;,]+), rot\);",
+                  r"__CPROVER_assert(0 <= (\1) && (\1) < S->m_U.cols && 0 <= (\2) && (\2) < S->m_U.cols, @Q@Eigen: applyOnTheRight(p, q) column indices in range@Q@); MAT_TOUCH(S->m_U);", {"max": 1})]
+    t, R = cgen.emit(f, "perform_francis_qr_step", ret_c="void", self_type="SC", self_name="S", members=mem,
+                     param_types={"first_householder_vec": "const Scalar *", "near_0": "Scalar"},
+                     pre_rules=[("hleft", r"apply_householder_left\(ess, tau, &(m_[TU])\.coeffRef\(([^,()]+), ([^,()]+)\), ([^;]+?), ([^,;]+)\);", r"HH_LEFT(&S->\1, \2, \3, \4, \5);", {"max": 1}),
+                                ("hright", r"apply_householder_right_simd\(ess, tau, &(m_[TU])\.coeffRef\(([^,()]+), ([^,()]+)\), ([^;]+?), ([^,;]+)\);", r"HH_RIGHT(&S->\1, \2, \3, \4, \5);", {"min": 2, "max": 2}),
+                                ("vdecl", r"Vector3s v;", "", {"max": 1}),
+                                ("vfirst", r"v = first_householder_vec;", "(void)first_householder_vec[2];", {"max": 1}),
+                                ("vblock", r"v = m_T\.template block<3, 1>\(([^;]+)\);", r"BLOCK_CHECK(S->m_T, \1, 3, 1);", {"max": 1}),
+                                ("ess", r"Vector2s ess;", "", {"max": 1}),
+                                ("house", r"v\.makeHouseholder\(ess, tau, beta\);", "tau = nondet_Scalar(); beta = nondet_Scalar();", {"max": 1}),
+                                coeff] + rot_rules,
+                     loop_contracts={0: "__CPROVER_assigns(k, S->m_T.cell, S->m_U.cell) __CPROVER_loop_invariant(im <= k && k <= iu - 1) __CPROVER_decreases(iu - k)",
+                                     1: "__CPROVER_assigns(i, S->m_T.cell) __CPROVER_loop_invariant(im + 2 <= i && i <= iu + 1) __CPROVER_decreases(iu + 1 - i)"},
+                     contract=sp.frame_contract())
+    report["UpperHessenbergSchur::perform_francis_qr_step"] = R.fired
+    out.append(("schur.perform_francis_qr_step", types + hh + t + sp.harness("h", alloc + "  Index il = nondet_Index(), im = nondet_Index(), iu = nondet_Index(); const Scalar *first_householder_vec = VEC_NEW(3); Scalar near_0 = nondet_Scalar();",
+                                                                         "S, il, im, iu, first_householder_vec, near_0"), "perform_francis_qr_step",
+                ["loop_invariant_step", "apply_householder_left precondition", "apply_householder_right_simd precondition", "Eigen block assertion"]))
     groups = []
     for name, text, enf, exp in out:
         groups.append(Group(name, BASE + text, "h", enforce=enf, solver="cadical", defines=["SCALAR_DOUBLE"], timeout=600, functions=[SH + ":" + enf], expect_classes=exp,
@@ -301,9 +342,126 @@ typedef struct { Scalar m_c, m_s; } Jacobi;
     return groups
 
 
+# ------------------------------------------------------------------ Householder kernels of the Francis step (raw pointers, SIMD peeling)
+HH_GHOST = r'''
+/* ghost model of the three addressed columns: one buffer M, column c starts at M + c * g_stride, rows 0..g_nrow-1 are in play.
+ * g_row is an arbitrary but fixed row; g_cnt[c] counts how often row g_row of column c has been stored to. */
+typedef struct { unsigned char dummy; } Packet;
+Scalar *g_M; Index g_stride, g_nrow, g_row; Index g_cnt[3];
+Packet nondet_Packet(void);
+static Packet PSET1(Scalar v) { (void)v; return nondet_Packet(); }
+static Packet padd(Packet a, Packet b) { (void)a; (void)b; return nondet_Packet(); }
+static Packet psub(Packet a, Packet b) { (void)a; (void)b; return nondet_Packet(); }
+static Packet pmul(Packet a, Packet b) { (void)a; (void)b; return nondet_Packet(); }
+static void GHOST_ACCESS(const Scalar *p, Index len, _Bool store)
+{
+  __CPROVER_assert(__CPROVER_same_object(p, g_M), "householder kernel: access inside the matrix buffer");
+  Index off = (Index)(__CPROVER_POINTER_OFFSET(p) / sizeof(Scalar)) - (Index)(__CPROVER_POINTER_OFFSET(g_M) / sizeof(Scalar));
+  __CPROVER_assert(0 <= off && off < 3 * g_stride, "householder kernel: access starts inside the three addressed columns");
+  Index col = off < g_stride ? 0 : (off < 2 * g_stride ? 1 : 2);
+  Index row = off - col * g_stride;
+  __CPROVER_assert(row + len <= g_nrow, "householder kernel: a (packet) access stays inside rows 0..nrow-1 of its column");
+  if (row <= g_row && g_row < row + len) {
+    if (store) g_cnt[col]++;
+    else __CPROVER_assert(g_cnt[col] == 0, "householder kernel: every row is read before it is updated (no row is transformed twice)");
+  }
+}
+static Packet PLOADU(const Scalar *p) { GHOST_ACCESS(p, PACKET_SIZE, 0); return nondet_Packet(); }
+static void PSTOREU(Scalar *p, Packet v) { (void)v; GHOST_ACCESS(p, PACKET_SIZE, 1); }
+#define CNT_IS(c, done_below) (g_cnt[c] == ((g_row < (done_below)) ? 1 : 0))
+#define PTR_AT(p, base, i) (__CPROVER_same_object(p, base) && __CPROVER_POINTER_OFFSET(p) == __CPROVER_POINTER_OFFSET(base) + (i) * (Index)sizeof(Scalar))
+'''
+
+
+def householder_kernels(tier, report):
+    groups = []
+    harness = r'''
+#line 1 "harness/schur.householder"
+void h(void) {
+  Index stride = nondet_Index(), nrow = nondet_Index(); __CPROVER_assume(0 <= nrow && nrow <= stride && stride <= NMAXS);
+  Scalar *M = VEC_NEW(3 * stride); Scalar *ess = VEC_NEW(2); Scalar tau = nondet_Scalar();
+  g_M = M; g_stride = stride; g_nrow = nrow; g_row = nondet_Index(); __CPROVER_assume(0 <= g_row && g_row < nrow); g_cnt[0] = 0; g_cnt[1] = 0; g_cnt[2] = 0;
+  KERNEL(ess, tau, M, nrow, stride);
+  __CPROVER_assert(g_cnt[0] == 1 && g_cnt[1] == 1 && g_cnt[2] == 1, "householder kernel: every row 0..nrow-1 of each of the three columns is updated EXACTLY once (peeled, packet and scalar parts partition the rows)");
+  CANARY();
+}
+'''
+    common = [("ess", r"\bess\.coeff\((\d)\)", r"ess[\1]", {"min": 2, "max": 2})]
+    scal_rules = [("sload", r"const Scalar txv = ", "GHOST_ACCESS(x0 + i, 1, 0); GHOST_ACCESS(x1 + i, 1, 0); GHOST_ACCESS(x2 + i, 1, 0); const Scalar txv = ", {"max": 1}),
+                  ("sstore", r"\b(x[012])\[i\] -= ([^;]+);", r"{ \1[i] -= \2; GHOST_ACCESS(\1 + i, 1, 1); }", {"min": 3, "max": 3})]
+    # scalar variant
+    f = X.locate(SH, "apply_householder_right", cls="UpperHessenbergSchur")
+    t, R = cgen.emit(f, "apply_householder_right", ret_c="void", static=True, param_types={"ess": "const Scalar *", "tau": "Scalar"}, pre_rules=common + scal_rules,
+                     loop_contracts={0: "__CPROVER_assigns(i, __CPROVER_object_whole(x), __CPROVER_object_whole(g_cnt)) "
+                                        "__CPROVER_loop_invariant(0 <= i && i <= nrow && CNT_IS(0, i) && CNT_IS(1, i) && CNT_IS(2, i)) __CPROVER_decreases(nrow - i)"})
+    report["UpperHessenbergSchur::apply_householder_right"] = R.fired
+    groups.append(Group("schur.householder_right", BASE + HH_GHOST + t + harness, "h", solver="cadical", defines=["SCALAR_FLOAT", "PACKET_SIZE=1", "KERNEL=apply_householder_right"], timeout=600,
+                        functions=[SH + ":apply_householder_right"], expect_classes=["loop_invariant_step", "householder kernel"],
+                        note="UNBOUNDED in nrow and stride: memory safety and exactly-once row coverage of the three columns (values not modelled)"))
+    # SIMD variant, one run per packet width
+    f = X.locate(SH, "apply_householder_right_simd", cls="UpperHessenbergSchur")
+    simd = common + [
+        ("using", r"using (?:Eigen::internal::\w+|Packet = typename Eigen::internal::packet_traits<Scalar>::type);", "", {"min": 7, "max": 7}),
+        ("psize", r"constexpr unsigned char PacketSize = Eigen::internal::packet_traits<Scalar>::size;", "const unsigned char PacketSize = PACKET_SIZE;", {"max": 1}),
+        ("constexpr", r"\bconstexpr unsigned char\b", "const unsigned char", {"min": 2, "max": 2}),
+        ("pset1", r"pset1<Packet>\(", "PSET1(", {"min": 3, "max": 3}),
+        ("ploadu", r"ploadu<Packet>\(", "PLOADU(", {"min": 9, "max": 9}),
+        ("pstoreu", r"\bpstoreu\(", "PSTOREU(", {"min": 9, "max": 9})] + scal_rules
+    inv0 = ("__CPROVER_assigns(i, px0, px1, px2, __CPROVER_object_whole(g_cnt)) "
+            "__CPROVER_loop_invariant(0 <= i && i <= peeling_end && (i & (Increment - 1)) == 0 && PTR_AT(px0, x0, i) && PTR_AT(px1, x1, i) && PTR_AT(px2, x2, i) && CNT_IS(0, i) && CNT_IS(1, i) && CNT_IS(2, i)) "
+            "__CPROVER_decreases(peeling_end - i)")
+    inv1 = ("__CPROVER_assigns(i, __CPROVER_object_whole(x), __CPROVER_object_whole(g_cnt)) "
+            "__CPROVER_loop_invariant(aligned_end <= i && i <= nrow && CNT_IS(0, i) && CNT_IS(1, i) && CNT_IS(2, i)) __CPROVER_decreases(nrow - i)")
+    t2, R = cgen.emit(f, "apply_householder_right_simd", ret_c="void", static=True, param_types={"ess": "const Scalar *", "tau": "Scalar"}, pre_rules=simd,
+                      loop_contracts={0: inv0, 1: inv1})
+    report["UpperHessenbergSchur::apply_householder_right_simd"] = R.fired
+    for ps in (1, 2, 4, 8, 16):
+        groups.append(Group("schur.householder_right_simd.packet%d" % ps, BASE + HH_GHOST + t2 + harness, "h", solver="cadical",
+                            defines=["SCALAR_FLOAT", "PACKET_SIZE=%d" % ps, "KERNEL=apply_householder_right_simd"], timeout=900,
+                            functions=[SH + ":apply_householder_right_simd"], expect_classes=["loop_invariant_step", "householder kernel"],
+                            note="UNBOUNDED in nrow and stride for packet width %d: the peeled (2 packets), single-packet and scalar parts partition rows 0..nrow-1; every packet load/store stays inside its column; "
+                                 "packet values are abstract (extents kept)" % ps))
+    # left variant: pointer-stepping loop `for (; x < x_end; x += stride)` - the in-bounds argument needs "x - x0 is a multiple of stride",
+    # a nonlinear fact; BOUNDED at concrete stride n (r0, c0, ncol symbolic)
+    f = X.locate(SH, "apply_householder_left", cls="UpperHessenbergSchur")
+    left_rules = common + [("load", r"const Scalar tvx = tau \* \((\w+)\[0\]", r"LEFT_ACCESS(\1, 0, 0); LEFT_ACCESS(\1, 1, 0); LEFT_ACCESS(\1, 2, 0); const Scalar tvx = tau * (\1[0]", {"max": 1}),
+                           ("store", r"\b(\w+)\[([012])\] -= ([^;]+);", r"{ \1[\2] -= \3; LEFT_ACCESS(\1, \2, 1); }", {"min": 3, "max": 3})]
+    t3, R = cgen.emit(f, "apply_householder_left", ret_c="void", static=True, param_types={"ess": "const Scalar *", "tau": "Scalar"}, pre_rules=left_rules)
+    report["UpperHessenbergSchur::apply_householder_left"] = R.fired
+    left_h = r'''
+Scalar *g_M; Index g_r0, g_c0, g_ncol, g_col; Index g_cntl[3];
+static void LEFT_ACCESS(const Scalar *x, Index k, _Bool store)
+{
+  __CPROVER_assert(__CPROVER_same_object(x, g_M), "householder kernel (left): access inside the matrix buffer");
+  Index off = (Index)(__CPROVER_POINTER_OFFSET(x) / sizeof(Scalar)) + k;
+  Index col = off / NN, row = off % NN;
+  __CPROVER_assert(g_c0 <= col && col < g_c0 + g_ncol && g_r0 <= row && row < g_r0 + 3, "householder kernel (left): touches only rows r0..r0+2 of columns c0..c0+ncol-1");
+  if (col == g_col) { if (store) g_cntl[row - g_r0]++; else __CPROVER_assert(g_cntl[row - g_r0] == 0, "householder kernel (left): every column is read before it is updated"); }
+}
+'''
+    left_h2 = r'''
+#line 1 "harness/schur.householder_left"
+void h(void) {
+  Scalar *M = VEC_NEW(NN * NN); Scalar *ess = VEC_NEW(2); Scalar tau = nondet_Scalar();
+  g_M = M; g_r0 = nondet_Index(); g_c0 = nondet_Index(); g_ncol = nondet_Index(); g_col = nondet_Index();
+  __CPROVER_assume(0 <= g_r0 && g_r0 <= NN - 3 && 0 <= g_c0 && g_c0 <= NN && 0 <= g_ncol && g_ncol <= NN - g_c0 && g_c0 <= g_col && g_col < g_c0 + g_ncol);
+  g_cntl[0] = 0; g_cntl[1] = 0; g_cntl[2] = 0;
+  apply_householder_left(ess, tau, M + g_r0 + g_c0 * NN, g_ncol, NN);
+  __CPROVER_assert(g_cntl[0] == 1 && g_cntl[1] == 1 && g_cntl[2] == 1, "householder kernel (left): each of the three rows of every column c0..c0+ncol-1 is updated EXACTLY once");
+  CANARY();
+}
+'''
+    for n in ([3, 4, 6] if tier == "quick" else [3, 4, 5, 6, 8, 10]):
+        groups.append(Group("schur.householder_left.n%d" % n, BASE + left_h + t3 + left_h2, "h", loop_contracts=False, solver="cadical", defines=["SCALAR_FLOAT", "NN=%d" % n], unwind=n + 2, timeout=600,
+                            bounded="stride n = %d (concrete; r0, c0, ncol symbolic), full unwinding with unwinding assertions" % n,
+                            functions=[SH + ":apply_householder_left"], expect_classes=["householder kernel (left)"],
+                            note="pointer-stepping loop; memory safety and exactly-once coverage of the 3 x ncol block"))
+    return groups
+
+
 def build(tier):
     report = {}
-    groups = [tridiag(report), schur(report)] + schur_helpers(report)
+    groups = [tridiag(report), schur(report)] + schur_helpers(report) + householder_kernels(tier, report)
     types, t, spec = hesseigen(report)
     h = spec.harness("h", "  HE Ev; HE *E = &Ev; E->m_n = nondet_Index(); __CPROVER_assume(0 <= E->m_n && E->m_n <= NMAXS); E->m_matT = MAT_NEW(E->m_n, E->m_n); E->kind = IVEC_NEW(E->m_n); E->m_eivalues = NULL;", "E")
     from props import skel
@@ -331,7 +489,10 @@ void h(void) { Scalar a = nondet_Scalar(), s = nondet_Scalar(); Scalar r = a * s
     from props import kernels
     groups += kernels.eigen_groups(tier, report)
     meta = {"level": "proof", "trusted_base": ["cbmc 6.11.0 dfcc", "cadical / kissat / cvc5", "extractor"],
-            "assumptions": ["tridiagonal_qr_step and the Francis-step helpers satisfy the frame/index contracts stubbed here (bodies: bounded kernels)",
+            "assumptions": ["call-site stubs of tridiagonal_qr_step and of the five Francis-step helpers carry exactly the frame/index contracts proved in the tridiag.qr_step.frame / schur.<helper> groups "
+                            "(hand-written stub text inside schur.compute / tridiag.compute, same clauses); the Householder kernels' contracts used by schur.perform_francis_qr_step are proved in "
+                            "schur.householder_right* (unbounded) and schur.householder_left.n<N> (BOUNDED)",
+                            "packet (SIMD) values and Householder coefficients are abstract: extents and visit counts only",
                             "Eigen's `complex vector *= real` is coefficient-wise real scaling", "floating-point values of the matrices are not modelled (T is an uninterpreted fixed matrix)",
                             "objects are fresh when compute() is called (as in every solver call site); a reused object that once succeeded keeps m_computed == true after a later failure - not claimed"],
             "not_covered": ["T Z = Z diag(d), U T U' = H, ||H x - lambda x|| to n*eps*norm (backward stability, numerical)"],
